@@ -1,6 +1,29 @@
 package kvql
 
-import "fmt"
+import (
+	"fmt"
+	"math"
+	"strconv"
+)
+
+// floatLiteral spells a folded float constant so that the text, parsed again,
+// is the same float literal: 3.0 is not written 3 (an integer literal) and
+// 1e+21 is not written with an exponent (the sign would split the token)
+func floatLiteral(pos int, f float64) *FloatExpr {
+	data := strconv.FormatFloat(f, 'f', -1, 64)
+	switch {
+	case math.IsNaN(f):
+		data = "nan"
+	case math.IsInf(f, 0):
+		data = "inf"
+		if f < 0 {
+			data = "-inf"
+		}
+	case isNumber(data):
+		data += ".0"
+	}
+	return &FloatExpr{Pos: pos, Data: data, Float: f}
+}
 
 type ExpressionOptimizer struct {
 	Root   Expression
@@ -138,14 +161,14 @@ func (o *ExpressionOptimizer) tryOptimizeBinaryOpExecute(e *BinaryOpExpr) (Expre
 					return &NumberExpr{Pos: leftPos, Data: fmt.Sprintf("%v", cret), Int: cret}, true
 				case float64:
 					// integer op float yields a float, keep it a float literal
-					return &FloatExpr{Pos: leftPos, Data: fmt.Sprintf("%v", cret), Float: cret}, true
+					return floatLiteral(leftPos, cret), true
 				}
 			case *FloatExpr:
 				switch cret := ret.(type) {
 				case int64:
-					return &FloatExpr{Pos: leftPos, Data: fmt.Sprintf("%v", float64(cret)), Float: float64(cret)}, true
+					return floatLiteral(leftPos, float64(cret)), true
 				case float64:
-					return &FloatExpr{Pos: leftPos, Data: fmt.Sprintf("%v", cret), Float: cret}, true
+					return floatLiteral(leftPos, cret), true
 				}
 			}
 		}
@@ -284,7 +307,7 @@ func (o *ExpressionOptimizer) tryOptimizeFunctionCall(e *FunctionCallExpr) (Expr
 			}
 			fret, ok := ret.(float64)
 			if ok {
-				return &FloatExpr{Pos: e.GetPos(), Data: fmt.Sprintf("%v", ret), Float: fret}, true
+				return floatLiteral(e.GetPos(), fret), true
 			}
 		case TBOOL:
 			if ret.(bool) {
